@@ -92,7 +92,7 @@ def main():
         for f in sorted(glob.glob(os.path.join(VERIF, "mutants", "*.patch"))):
             items.append((f, props_of(os.path.basename(f))))
     if args.only:
-        items = [i for i in items if args.only in i[0]]
+        items = [i for i in items if re.search(args.only, i[0])]
     allp = ["C%02d" % i for i in range(1, 21)] if args.all_props else []
     # warm the fact cache for the unmodified tree is not needed: every mutant has its own tree hash
     results = []
